@@ -193,9 +193,9 @@ TEXT = {
     "C03": {
         "engine": "rrtk-mc c03-datum-operators + c03-selection-helpers + c03-stream-timestamps + c03-terminal-timestamps + c08 timestamp mode",
         "technique": "exhaustive enumeration of all ordered timestamp pairs/weak orders over an alphabet with equal, adjacent, negative and extreme i64 values for every Datum operator impl x payload type, the replace/latest helpers, every combinator, terminal reads and device updates",
-        "text": "All 225 ordered pairs of a 15-value alphabet (MIN, MIN+1, +-1.5e9(+7), -2..2, 2^53(+1), MAX-1, MAX) for each of the 34 Datum operator impls (85 "
+        "text": "All 529 ordered pairs of a 23-value alphabet (MIN, MIN+1, +-2^32, +-3e9, +-2^31, 2^31-1, -2^31-1, +-1.5e9(+7), -2..2, 2^53(+1), MAX-1, MAX) for each of the 34 Datum operator impls (85 "
                 "payload instantiations, table checked against the source), the selection helpers incl. empty cases, "
-                "the C02 enumeration with the timestamp oracle only (two-input combinators on all 225 pairs), terminal reads and "
+                "the C02 enumeration with the timestamp oracle only (two-input combinators on all 529 pairs), terminal reads and "
                 "device updates with all weak timestamp orders, each also realised with timestamps further apart than i64::MAX. The device engines also run under the 24 cross-kind environments (states present while command timestamps are judged and vice versa).",
         "note": "A max-of-timestamps rule depends only on the order relation of its operands, which the alphabet covers "
                 "completely for pairs; payload values fixed.",
